@@ -458,7 +458,46 @@ class C17:
         ctx.ok("R17.5", site, f"slices [:width], [-width:], [s:s+width] select exactly `width` samples at the requested position ({n} instances of the extracted slice formulas)")
 
 
+def check_dim_step(ctx: Ctx):
+    """R17.7: the step every width/range operation uses is the recorded attribute, or the mean spacing of the axis."""
+    s = ctx.summ.of_func(DIMS, "get_dim_step")
+    file = s.module.relpath
+    site = f"{file}:{s.node.lineno} get_dim_step"
+    arr, dim = ("param", s.params[0]), ("param", s.params[1])
+    coord = ("sub", ("attr", arr, "coords"), dim)
+    attrs = ("attr", coord, "attrs")
+    key = ("attr", ("attr", ("global", "soundevent.arrays.attributes:DimAttrs", "class"), "step"), "value")
+    has = ("cmp", "in", key, attrs)
+    r_attr = [r for r in s.returns if r.term == ("sub", attrs, key) and has in conjuncts(r.live)]
+    est = ("global", f"{DIMS}:estimate_dim_step", "func")
+    r_est = [r for r in s.returns if r.term[0] == "call" and r.term[1] == est]
+    es = ctx.summ.of_func(DIMS, "estimate_dim_step")
+    good = len(r_attr) == 1 and len(r_est) == 1 and len(s.returns) == 2
+    if good:
+        b, _, _, _ = bind_args(r_est[0].term, es.params)
+        good = b.get(es.params[0]) == ("attr", coord, "data") and all(b.get(k) == ("param", k) for k in ("rtol", "atol", "check_tolerance")) \
+            and ("cmp", "notin", key, attrs) in conjuncts(r_est[0].live)
+    rej = [r for r in s.raises if ("not", ("param", "estimate_step")) in conjuncts(r.live) or NOT(("param", "estimate_step")) in conjuncts(r.live)]
+    if good and rej:
+        ctx.ok("R17.7", site, "step = the recorded attribute when present, else the estimate over the axis data (tolerances forwarded); no estimate -> error")
+    else:
+        ctx.bad("R17.7", file, "get_dim_step", "step from attribute or estimate",
+                f"get_dim_step must return attrs['step'] when recorded and otherwise estimate_dim_step(coord.data, rtol, atol, check_tolerance) "
+                f"(raising when estimation is disabled): {[(show(r.live)[:40], show(r.term)[:50]) for r in s.returns]}", s.node.lineno)
+    d = ("param", es.params[0])
+    diff = ("call", ("ext", "numpy.diff"), (d,), ())
+    want = [("call", ("attr", diff, "mean"), (), ()), ("call", ("ext", "numpy.mean"), (diff,), ())]
+    ok = bool(es.returns) and all(r.term in want for r in es.returns)
+    esite = f"{file}:{es.node.lineno} estimate_dim_step"
+    if ok:
+        ctx.ok("R17.7", esite, "estimated step = mean of the consecutive differences of the axis")
+    else:
+        ctx.bad("R17.7", file, "estimate_dim_step", f"return {show(es.returns[0].term)[:60] if es.returns else '-'}",
+                "the estimated step must be the mean of np.diff(axis)", es.node.lineno)
+
+
 def run(ctx: Ctx):
+    ctx.rule("R17.7", "axis step: recorded attribute, else mean spacing", 2)
     ctx.rule("R17.1", "new coordinates come from integer-count generators", 4)
     ctx.rule("R17.2", "closedness flags move the ends by the right sign of eps", 2)
     ctx.rule("R17.3", "range guards exact", 1)
@@ -470,6 +509,7 @@ def run(ctx: Ctx):
     c.check_extend_dim()
     c.check_crop_dim()
     c.check_width_ops()
+    check_dim_step(ctx)
     return EXPLANATION, ASSUMPTIONS
 
 
